@@ -129,6 +129,63 @@ def check(run):
         rs.SSLIB_AVAILABLE, rs.gpg_funcs = old_state
         if old_state[1] is None and hasattr(rs, "gpg_funcs"):
             del rs.gpg_funcs
+    # a write the operating system cuts short (file-size limit, full disk, quota): the call may FAIL, but when it returns normally the file
+    # holds the complete canonical bytes - probed in a forked child under RLIMIT_FSIZE for several limits around the document's size
+    import multiprocessing as mp
+
+    def _limited(conn, limit, path, doc, repodata_path, key_hex):
+        import resource
+        import signal
+        signal.signal(signal.SIGXFSZ, signal.SIG_IGN)
+        resource.setrlimit(resource.RLIMIT_FSIZE, (limit, limit))
+        out = {}
+        for name, fn in (("write_metadata_to_file", lambda: common.write_metadata_to_file(doc, path)),
+                         ("sign_all_in_repodata", lambda: lib.cct("signing").sign_all_in_repodata(repodata_path, key_hex))):
+            try:
+                fn()
+                out[name] = "returned"
+            except BaseException as e:  # noqa: BLE001
+                out[name] = type(e).__name__
+        conn.send(out)
+        conn.close()
+
+    big = {"signatures": {}, "signed": {"payload": ["entry %06d" % i for i in range(600)], "n": 1}}
+    big_bytes = twin_canon(big)
+    nlim = 0
+    for limit in (1, 100, 3000, len(big_bytes) - 1, len(big_bytes), len(big_bytes) + 1, 10 ** 9):
+        path, rpath = os.path.join(wd, "limited-%d.json" % limit), os.path.join(wd, "limited-repodata-%d.json" % limit)
+        repodata = {"info": {}, "packages": {"p%04d-1.0-0.tar.bz2" % i: {"name": "p%04d" % i, "version": "1.0"} for i in range(60)}, "packages.conda": {}}
+        with open(rpath, "wb") as f:
+            f.write(twin_canon(repodata))
+        with open(path, "wb") as f:
+            f.write(b"{}")
+        kseed = crypto.seed_for(9450, run.seed)
+        parent, child = mp.get_context("fork").Pipe()
+        pr = mp.get_context("fork").Process(target=_limited, args=(child, limit, path, big, rpath, kseed.hex()))
+        pr.start()
+        child.close()
+        res = parent.recv() if parent.poll(120) else {}
+        pr.join(30)
+        run.evaluations += 2
+        nlim += 1
+        with open(path, "rb") as f:
+            got = f.read()
+        if res.get("write_metadata_to_file") == "returned" and got != big_bytes:
+            run.violation("write_metadata_to_file returned normally although the operating system stored only part of the document",
+                          {"kind": "limited_write", "file_size_limit": limit, "document_bytes": len(big_bytes), "stored_bytes": len(got)})
+        if res.get("sign_all_in_repodata") == "returned":
+            with open(rpath, "rb") as f:
+                rgot = f.read()
+            try:
+                new = __import__("json").loads(rgot)
+                okr = rgot == twin_canon(new) and set(new.get("signatures", {})) == set(repodata["packages"])
+            except Exception:  # noqa: BLE001
+                okr = False
+            if not okr:
+                run.violation("sign_all_in_repodata returned normally although the operating system stored only part of the signed document",
+                              {"kind": "limited_write", "file_size_limit": limit, "stored_bytes": len(rgot)})
+        run._distinct.add("limited-%d" % limit)
+    run.extra["size_limited_writes"] = nlim
     # Alias.tla (PersistNeutral): the same for every sharing pattern of the two root rules' key lists, judged against the specification's verdict
     from .. import alias_engine
     run.mutant("Alias", "Alias_mut_same_list_skip.cfg", expect="ValueDetermined", timeout=300)
